@@ -53,6 +53,7 @@ type ctx struct {
 	boundaryRefused    int64 // refused by a declared limit (control length refused as well)
 	boundaryNotCarried int64 // field not carried by the variant
 
+	limitProbes       int64
 	msgLimits         int64 // messages at their documented count limit that round-tripped
 	numeric           int64 // numeric-boundary cases that round-tripped
 	numericRefused    int64 // refused/misparsed together with the neighbouring value (validated field)
@@ -792,6 +793,22 @@ func main() {
 		c.guard("numeric", bc.name, func() { c.runNumeric(bc) })
 	}
 	phaseT("numeric")
+	observedLimits, unpinnedLimits, vanishedLimits := c.checkLimits(bpar, bseq)
+	if os.Getenv("VERIF_C04_PINGEN") != "" {
+		var ks []string
+		for k := range observedLimits {
+			ks = append(ks, k)
+		}
+		sort.Strings(ks)
+		fmt.Println("// Code generated by VERIF_C04_PINGEN=1 ./bin/c04 quick; reviewed. DO NOT EDIT by hand.")
+		fmt.Println("package main\n\nvar pinnedLimits = map[string]int{")
+		for _, k := range ks {
+			fmt.Printf("\t%q: %d,\n", k, observedLimits[k])
+		}
+		fmt.Println("}")
+		os.Exit(0)
+	}
+	phaseT("limits")
 	var truncFields []string
 	for k := range c.truncFields {
 		truncFields = append(truncFields, k)
@@ -868,6 +885,10 @@ func main() {
 		"boundary_length_refused_by_limit":    c.boundaryRefused,
 		"boundary_length_field_not_carried":   c.boundaryNotCarried,
 		"message_limit_roundtrips":            c.msgLimits,
+		"field_limits_probed":                 len(observedLimits),
+		"field_limit_probe_roundtrips":        c.limitProbes,
+		"field_limits_not_in_pinned_table":    unpinnedLimits,
+		"field_limits_pinned_but_not_probed":  vanishedLimits,
 		"numeric_boundary_roundtrips":         c.numeric,
 		"numeric_refused_validated_field":     c.numericRefused,
 		"numeric_field_not_carried":           c.numericNotCarried,
